@@ -86,6 +86,15 @@ def _ser(w: World, style="inplace_ret", user_keys=False):
     def ser(node, data):
         w.fault.tick("mapper")
         extra = dict(USER_KEYS) if user_keys and not isinstance(node.data, str) else {}
+        if style == "new_bare":
+            # a new dict that holds the object's own fields only (what the shipped
+            # DictWrapper.serialize_mapper does: `return node.data._dict.copy()`);
+            # the fields nutree pre-filled (data_id, kind) are nutree's business
+            if isinstance(node.data, str):
+                return None
+            new = dict(encode_value(node.data))
+            new.update(extra)
+            return new
         if style == "new":
             # a fresh dict built from the documented fields only
             new = {k: data[k] for k in ("data", "str", "data_id", "kind") if k in data}
@@ -298,8 +307,9 @@ def plan_restart(w: World, op: dict) -> Plan:
     class_style = flavour in ("sub", "tsub", "fs")
     # loading without a mapper is documented for plain string entries only
     # (typed: {"str", "kind"}); dict entries need a mapper by documentation
-    plain_entries = all(isinstance(m.data, str) and m.did == dhash(m.data)
-                        for m in mt.root.iter_pre())
+    # - also when a string node carries a custom data_id ({"str", "data_id"[, "kind"]}):
+    # what was saved without a mapper loads without one
+    plain_entries = all(isinstance(m.data, str) for m in mt.root.iter_pre())
     no_mapper = bool(op.get("no_mapper")) and plain_entries and not class_style
     has_fs_data = any(flavour_of(m.data) == "f" for m in mt.root.iter_pre())
     target_kind = op.get("target", "path")
@@ -400,6 +410,8 @@ def plan_restart(w: World, op: dict) -> Plan:
         w.deser_cache = {}  # class level mappers intern per load as well
         file_meta = {}
         lkw = {"file_meta": file_meta}
+        if op.get("auto_uncompress"):
+            lkw["auto_uncompress"] = True  # the default, spelled out
         if not class_style and not no_mapper:
             lkw["mapper"] = _interning_deser(w, {}, consume=op.get("deser_style") == "consume",
                                              verify_user_keys=user_keys)
